@@ -487,6 +487,32 @@ func checkBlockExtras(b Rec) (fs []finding) {
 			}
 		}
 	}
+	// the wrapped transactions are generated lazily and in any order: asking
+	// for one transaction first must not change what the others are
+	for _, first := range []int{0, len(txns) - 1, len(txns) / 2} {
+		if first < 0 || first >= len(txns) {
+			continue
+		}
+		// (the FromBytes constructors generate all of them eagerly; a block
+		// wrapped with NewBlock learns its serialization from Bytes())
+		ub2 := btcutil.NewBlock(blockToWire(b))
+		if got, err := ub2.Bytes(); err != nil || !bytes.Equal(got, wb) {
+			bad("btcutil.Block.Bytes", "NewBlock(...).Bytes(): err=%v %s", err, firstDiff(got, wb))
+		}
+		if t1, err := ub2.Tx(first); err != nil || *t1.Hash() != rw.TxID(txns[first]) {
+			bad("btcutil.Block.Tx", "Tx(%d) first: err=%v or wrong hash", first, err)
+		}
+		for i, ut := range ub2.Transactions() {
+			if want := rw.TxID(txns[i]); *ut.Hash() != want {
+				bad("btcutil.Block.Tx-then-Transactions", "after Tx(%d), Transactions()[%d].Hash() = %x want %x", first, i, ut.Hash()[:], want[:])
+				break
+			}
+			if want := rw.WTxID(txns[i]); *ut.WitnessHash() != want {
+				bad("btcutil.Block.Tx-then-Transactions", "after Tx(%d), Transactions()[%d].WitnessHash() = %x want %x", first, i, ut.WitnessHash()[:], want[:])
+				break
+			}
+		}
+	}
 	if utl, err := ub.TxLoc(); err != nil || len(utl) != len(locs) {
 		bad("btcutil.Block.TxLoc", "err=%v n=%d want %d", err, len(utl), len(locs))
 	} else {
